@@ -66,6 +66,29 @@ USE_ELEM(ElemTC, uint8_t)
 USE_INT(ElemNR, uint8_t)
 USE_INT(ElemTR, uint8_t)
 
+
+// C15: the memory algorithms called directly with pointer iterators (in configurations before C++17 these are amc's own emulations)
+template <class E>
+void use_memory_algos(E *f, E *l, E *d, unsigned char n) {
+  (void)amc::uninitialized_default_construct_n(d, n);
+  amc::uninitialized_default_construct(f, l);
+  amc::uninitialized_value_construct(f, l);
+  (void)amc::uninitialized_value_construct_n(d, n);
+  (void)amc::uninitialized_copy(f, l, d);
+  (void)amc::uninitialized_copy_n(f, n, d);
+  (void)amc::uninitialized_move(f, l, d);
+  (void)amc::uninitialized_move_n(f, n, d);
+  (void)amc::uninitialized_relocate(f, l, d);
+  (void)amc::uninitialized_relocate_n(f, n, d);
+  (void)amc::relocate_at(f, d);
+  amc::destroy_at(f);
+  amc::destroy(f, l);
+  (void)amc::destroy_n(f, n);
+}
+template void use_memory_algos<ElemNR>(ElemNR *, ElemNR *, ElemNR *, unsigned char);
+template void use_memory_algos<ElemTR>(ElemTR *, ElemTR *, ElemTR *, unsigned char);
+template void use_memory_algos<ElemTC>(ElemTC *, ElemTC *, ElemTC *, unsigned char);
+
 #ifdef AMC_NONSTD_FEATURES
 // swap2 between flavours and size types
 template <class A, class B>
